@@ -10,7 +10,10 @@ assert s.count(sys.argv[2])>=1, "pattern not found"
 open(p,'w').write(s.replace(sys.argv[2],sys.argv[3],1))
 PY
 (cd /repo && GOFLAGS=-mod=mod go build ./... ) || { echo "mutant does not build"; exit 2; }
+# evidence/ must keep describing the unchanged tree: runs against a changed tree do not overwrite it
+rm -rf /verif/work/evidence.bak && cp -r /verif/evidence /verif/work/evidence.bak
 for p in "$@"; do
   out=$(cd /verif && ./check $p 2>&1)
   echo "$p: $(echo "$out" | grep -c '^VIOLATION') violation line(s); $(echo "$out" | tail -1 | cut -c1-230)"
 done
+rm -rf /verif/evidence && mv /verif/work/evidence.bak /verif/evidence
